@@ -71,6 +71,10 @@ where
 }
 
 pub fn get_crypto_rng() -> ChaCha20Rng {
+    #[cfg(feature = "verif-hooks")]
+    if let Some(seed) = crate::verif_hooks::next_seed() {
+        return ChaCha20Rng::from_seed(seed);
+    }
     ChaCha20Rng::from_entropy()
 }
 
